@@ -54,6 +54,8 @@ def run(ch: Checker) -> None:
     ch.rule('C01.7', 'client queue sites in proxy/http/proxy/server.py and core/base/tcp_tunnel.py are exactly {relay of received data, PROXY_TUNNEL_ESTABLISHED_RESPONSE_PKT under is_https_tunnel}; '
                      'that packet is `HTTP/1.1 200 Connection established`', 3)
     ch.rule('C01.9', 'the idle reaper never closes a connection that still holds undelivered relay data: is_inactive() requires an empty client buffer', 1)
+    ch.rule('C01.10', 'HttpProxyPlugin.get_descriptors: while the upstream connection is open it is registered for READING on every path, whether or not output is pending for it '
+                      '(read interest that waits for the write side to drain dead-locks a full-duplex tunnel under back-pressure)', 1)
     ch.rule('C01.8', 'socket send is called on a connection only by TcpConnection.send, itself only by TcpConnection.flush', 2)
 
     idle_predicate_check(ch, 'C01.9')
@@ -380,6 +382,9 @@ def run(ch: Checker) -> None:
     ch.check(bool(ok7), 'C01.7', None, 'PROXY_TUNNEL_ESTABLISHED_RESPONSE_PKT', '200 Connection established, no body, no Content-Length',
              'the tunnel acknowledgement is not a bare `200 Connection established` (%s): extra bytes would be injected ahead of tunnel data' % (info,), module_rel='proxy/http/responses.py')
 
+    # ---------------- C01.10 read interest in the upstream is unconditional
+    upstream_read_interest_check(ch, 'C01.10')
+
     # ---------------- C01.8 who may send
     offenders = []
     for fn in prog.all_functions('proxy'):
@@ -469,3 +474,44 @@ def _relay_param(ch: Checker, rule: str, fn: FuncInfo, sink_call: str) -> None:
         if len(sinks) != 1 or not sinks[0][1].args or norm(sym.value(sinks[0][1].args[0], sinks[0][0])) != param:
             bad = ('%s does not hand its argument to %s exactly once unchanged' % (fn.qualname, sink_call), p.describe())
     ch.check(bad is None and n > 0, rule, fn, '%s -> %s' % (param, sink_call), 'argument handed on exactly once, unchanged', bad[0] if bad else 'no path', witness=bad[1] if bad else None)
+
+
+def upstream_read_interest_check(ch: Checker, rule: str) -> None:
+    prog = ch.prog
+    gd = prog.own_method('HttpProxyPlugin', 'get_descriptors')
+    g = cfg_of(gd, prog, exc_edges=False)
+    OPEN = {'self.upstream': True, 'self.upstream.closed': False, 'self.upstream.connection': True}
+    n = 0
+    bad = None
+    for p in fpaths(g):
+        ch.paths += 1
+        if p.exit_kind != 'return':
+            continue
+        last = p.stmts()[-1][1]
+        if not (isinstance(last, ast.Return) and isinstance(last.value, ast.Tuple) and len(last.value.elts) == 2 and isinstance(last.value.elts[0], ast.Name)):
+            ch.skip(rule, gd, 'return', 'get_descriptors does not return a pair of local lists; read interest not decided')
+            return
+        rname = last.value.elts[0].id
+        fd = allfacts(p)
+        if any(fd.get(k) is not None and fd.get(k) != v for k, v in OPEN.items()):
+            continue      # the upstream is absent / closed on this path
+        if not any(k in fd for k in OPEN):
+            continue
+        n += 1
+        sym = Sym(p)
+        reg = False
+        for i, st in p.stmts():
+            for c in walk_no_nested(st):
+                if isinstance(c, ast.Call) and isinstance(c.func, ast.Attribute) and c.func.attr in ('append', 'add') and isinstance(c.func.value, ast.Name) and c.func.value.id == rname and c.args \
+                        and norm(sym.value(c.args[0], i)) == 'self.upstream.connection.fileno()':
+                    reg = True
+            if isinstance(st, (ast.Assign, ast.AnnAssign)):
+                tg = st.targets[0] if isinstance(st, ast.Assign) else st.target
+                if isinstance(tg, ast.Name) and tg.id == rname and st.value is not None and 'self.upstream.connection.fileno()' in norm(sym.value(st.value, i)):
+                    reg = True
+        if not reg:
+            bad = ('on a path where the upstream connection is open (%s) its descriptor is not registered for reading: while output is pending for the upstream nothing the '
+                   'upstream sends is read, and a peer that itself waits for its output to be read before reading more (echo / back-pressure in a tunnel) never makes progress'
+                   % ', '.join('%s=%s' % (k, fd[k]) for k in sorted(fd) if 'upstream' in k), p.describe(20))
+    ch.check(bad is None and n > 0, rule, gd, 'read interest in the upstream', 'registered for reading on all %d path(s) with an open upstream' % n,
+             bad[0] if bad else 'no path with an open upstream found', witness=bad[1] if bad else None)
